@@ -7,8 +7,8 @@ CONSTANTS
   MinPre = 0
   MinTotal = 0
   Leaky = FALSE
-  Alphabet <- CoreCmds
-  PreAlphabet <- CoreCmds
+  Alphabet <- EndCmds
+  PreAlphabet <- CorePreCmds
   Kinds <- EndKinds
   Modes <- BothModes
   Fins <- AllFins
